@@ -240,14 +240,14 @@ impl Truth {
         self.gets_since_sync += 1;
     }
 
-    /// An explicit `sync()` returned: reads recorded so far have been applied, unless the
-    /// read log may have overflowed (then nothing is promised).
-    pub fn on_sync(&mut self, read_log_size: u64) {
-        if self.gets_since_sync < read_log_size {
-            for kt in self.keys.values_mut() {
-                if let Some(l) = kt.cur.as_mut() {
-                    l.a_lo = l.a_hi;
-                }
+    /// An explicit `sync()` returned: the reads recorded so far have been applied. A single thread
+    /// never finds the read log full (its own get runs the maintenance at 64 recorded reads, in
+    /// both housekeeping regimes), so no read of a sequential history is ever dropped, however
+    /// many gets lie between two explicit syncs.
+    pub fn on_sync(&mut self, _read_log_size: u64) {
+        for kt in self.keys.values_mut() {
+            if let Some(l) = kt.cur.as_mut() {
+                l.a_lo = l.a_hi;
             }
         }
         self.gets_since_sync = 0;
